@@ -23,7 +23,7 @@ import weave  # noqa: E402
 OUT = os.path.join(ROOT, "out")
 EVID = os.path.join(ROOT, "evidence")
 VERUS = os.environ.get("VERUS", "verus")
-VERUS_FLAGS = ["--cfg", 'feature="bignum"', "--cfg", 'feature="value"',
+VERUS_FLAGS = ["--cfg", 'feature="bignum"', "--cfg", 'feature="value"', "--cfg", 'feature="convert"', "--cfg", 'feature="serde"',
                "--multiple-errors", "20", "--triggers-mode", "silent", "--rlimit", "60"]
 
 # message -> obligation kind; anything else at level=error is "not a verification failure"
